@@ -94,6 +94,10 @@ def impl_valget(data, reuse=False):
 
 BITS = [1, 8, 16, 32, 64]
 
+# The keys the u-blox interface description types as signed (I2), among those the library publishes; the same independent
+# two-entry oracle as `documented_signed` in coq/props/C13.v. Everything else published is unsigned or boolean.
+DOCUMENTED_SIGNED = [805699630, 805699631]
+
 
 def boundary_values(bits, signed):
     if bits == 1:
@@ -110,3 +114,30 @@ def out_of_range(bits, signed):
         m = 1 << (bits - 1)
         return [m, -m - 1]
     return [1 << bits, -1]
+
+
+def keyvalues_case(rng, consts):
+    """CfgKeyValues.from_keyvalues on a list of (key, value) pairs - keys may REPEAT - turned into a VALSET payload:
+    one item per pair, in the order given. Returns (model command, implementation result, description)."""
+    n = rng.choice([1, 2, 3, 5, 8])
+    keys = [rng.choice(consts) if rng.random() < 0.6 else ((rng.randrange(1, 6) << 28) | (rng.randrange(256) << 16) | rng.randrange(4096)) for _ in range(n)]
+    if n > 1 and rng.random() < 0.6:
+        keys[rng.randrange(1, n)] = keys[0]                  # the same key more than once
+    if n > 2 and rng.random() < 0.3:
+        keys[-1] = keys[1]
+    pairs, toks = [], []
+    for key in keys:
+        bits = [0, 1, 8, 16, 32, 64, 0, 0][(key >> 28) & 7]
+        signed = key in DOCUMENTED_SIGNED
+        v = rng.choice([True, False]) if bits == 1 else rng.choice(boundary_values(bits, signed))
+        pairs.append((key, v))
+        toks.append(item_token((key >> 16) & 0xFF, key & 0xFFF, bits, signed, v))
+
+    def run():
+        from ubxlib.cfgkeys import CfgKeyValues
+        from ubxlib.ubx_cfg_valset import UbxCfgValSetAction
+        its = CfgKeyValues.from_keyvalues(list(pairs))
+        fr = UbxCfgValSetAction(its)
+        fr.pack()
+        return C.hexs(fr.data)
+    return 'valset ' + ' '.join(toks), C.guarded(run), {'pairs': [[hex(k), repr(v)] for k, v in pairs]}
